@@ -298,6 +298,9 @@ class TreeFn:
         if isinstance(op, ast.Gt) and isinstance(left, ast.Name) and isinstance(right, ast.Name) \
                 and env.get(left.id) == "nat" and env.get(right.id) == "nat":
             return f"(Nat.ltb {self.v(right.id)} {self.v(left.id)})"
+        if isinstance(op, ast.Eq) and isinstance(left, ast.Name) and isinstance(right, ast.Name) \
+                and env.get(left.id) == "nat" and env.get(right.id) == "nat":
+            return f"(Nat.eqb {self.v(left.id)} {self.v(right.id)})"
         # len(l) > 1
         if isinstance(op, ast.Gt) and isinstance(left, ast.Call) and isinstance(left.func, ast.Name) and left.func.id == "len" \
                 and len(left.args) == 1 and isinstance(right, ast.Constant) and right.value == 1:
@@ -1081,6 +1084,7 @@ def translate_all(src_root=None):
     out.append(translate_dispatch(src_root, known, known_params, known_recursive))
     out.append(translate_settle(src_root, known, known_params, known_recursive))
     out.append(translate_drain(src_root, known, known_params, known_recursive))
+    out.append(translate_async_loop(src_root, known, known_params, known_recursive))
     return "\n".join(out)
 
 
@@ -1718,6 +1722,56 @@ def translate_drain(src_root, known, known_params, known_recursive):
     seg = ast.get_source_segment(text, fdef) or ""
     return (f"(* {fname} :: {func}  sha256[:16]={hashlib.sha256(seg.encode()).hexdigest()[:16]}: shape checked; the cut test of the drain loop *)\n"
             + fn.translate())
+
+
+# ---------------------------------------------------------------------------------------------------------------------
+# the consumer loop of the asyncio engine (_run_event_loop): shape of one iteration checked (dequeue; chain breaker: log, reset
+# the counter, drop the event; on_event_received hooks; process the event and settle with the counter remembered; reset the
+# counter if the step raised nothing; an exception of the step is logged and the interpreter keeps running), both tests translated
+def translate_async_loop(src_root, known, known_params, known_recursive):
+    fname, cls, func = "interpreter.py", "Interpreter", "_run_event_loop"
+    text, fdef = _find_method(src_root, fname, cls, func)
+    src = f"{fname}:{func}"
+
+    def bad(why):
+        raise Untranslatable(f"{src}: consumer loop: {why}")
+    loops = [n for n in ast.walk(fdef) if isinstance(n, ast.While)]
+    if len(loops) != 1 or ast.unparse(loops[0].test) != "self.status == 'running'":
+        bad("expected one `while self.status == 'running':`")
+    lb = [st for st in loops[0].body if not _is_logger(st)]
+    if len(lb) != 5 or ast.unparse(lb[0]) != "event = await self._event_queue.get()" or not isinstance(lb[1], ast.If) or lb[1].orelse \
+            or [ast.unparse(x) for x in lb[1].body if not _is_logger(x)] != ["self._raise_depth = 0", "self._event_queue.task_done()", "continue"] \
+            or ast.unparse(lb[2]) != "for plugin in self._plugins:\n    plugin.on_event_received(self, event)" \
+            or not isinstance(lb[3], ast.Try) or ast.unparse(lb[4]) != "self._event_queue.task_done()":
+        bad("expected `event = await queue.get(); if <chain too long>: reset, task_done, continue; hooks; try: <step>; task_done`")
+    tr = lb[3]
+    tb = [st for st in tr.body if not _is_logger(st)]
+    if len(tb) != 4 or [ast.unparse(x) for x in tb[:3]] != ["self._processing = True", "depth_before = self._raise_depth",
+                                                               "await self._process_event_and_transient_transitions(event)"] \
+            or not isinstance(tb[3], ast.If) or tb[3].orelse or [ast.unparse(x) for x in tb[3].body] != ["self._raise_depth = 0"]:
+        bad("expected the step: _processing = True; depth_before = _raise_depth; process event and settle; if <nothing raised>: reset")
+    if [ast.unparse(x) for x in tr.finalbody if not _is_logger(x)] != ["self._processing = False"] or len(tr.handlers) != 2 \
+            or ast.unparse(tr.handlers[0].type) != "asyncio.CancelledError" or ast.unparse(tr.handlers[1].type) != "Exception" \
+            or [x for x in tr.handlers[1].body if not _is_logger(x)]:
+        bad("expected `except CancelledError: raise / except Exception: log only / finally: _processing = False`")
+    _, step = _find_method(src_root, fname, cls, "_process_event_and_transient_transitions")
+    sb = [ast.unparse(x) for x in step.body if not (isinstance(x, ast.Expr) and isinstance(x.value, ast.Constant))]
+    if sb != ["await self._process_event(event)", "await self._settle_transient_transitions()"]:
+        bad("_process_event_and_transient_transitions is not `process the event; settle`")
+    out = []
+    seg = ast.get_source_segment(text, fdef) or ""
+    out.append(f"(* {fname} :: {func}  sha256[:16]={hashlib.sha256(seg.encode()).hexdigest()[:16]}: shape of one iteration checked; its two tests *)")
+    rename = {"self._raise_depth": "raise_depth"}
+    for name, test, params in (("async_chain_cut", lb[1].test, [("raise_depth", "nat"), ("limit", "nat")]),
+                               ("async_chain_reset", tb[3].test, [("raise_depth", "nat"), ("depth_before", "nat")])):
+        test2 = ast.parse(ast.unparse(test).replace("self._raise_depth", "raise_depth"), mode="eval").body
+        synth = ast.FunctionDef(name=func, args=ast.arguments(posonlyargs=[], args=[ast.arg(arg="self")] + [ast.arg(arg=p_) for p_, _ in params],
+                                                               kwonlyargs=[], kw_defaults=[], defaults=[]),
+                                body=[ast.Return(value=test2)], decorator_list=[], lineno=fdef.lineno)
+        ast.fix_missing_locations(synth)
+        fn = TreeFn(synth, dict(func=func, coqname=name, params=params, ret="bool", needs=[]), src, known)
+        out.append(fn.translate())
+    return "\n".join(out)
 
 
 def overriding_definitions(src_root=None):
